@@ -355,8 +355,7 @@ def _r113(ctx: Ctx) -> None:
     reach = E.reachable([root])
     names = {f.qual for f in reach}
     for must in ('panqec.simulation._direct_simulation.run_once', 'PauliErrorModel.generate',
-                 'panqec.error_models._pauli_error_model.fast_choice', 'BeliefPropagationOSDDecoder.decode',
-                 'StabilizerCode.measure_syndrome'):
+                 'BeliefPropagationOSDDecoder.decode', 'StabilizerCode.measure_syndrome'):
         ctx.need(must in names, 'R11.3', root.site, f'call graph from DirectSimulation._run does not reach {must} '
                                                     f'(resolution regressed)')
     n_sites = 0
@@ -371,8 +370,8 @@ def _r113(ctx: Ctx) -> None:
             ctx.ob('R11.3', f'{fi.mi.relpath}:{node.lineno}', f'{fi.qual}: {name} only when no generator was supplied', ok,
                    f'{norm_stmt(node)} draws from a process-global generator on a path where a seeded generator was '
                    f'supplied: the run is not reproducible from its seed', key=f'{fi.qual}|{name}')
-    ctx.need(n_sites >= 3, 'R11.3', root.site, f'only {n_sites} guarded global-generator sites found (expected the '
-                                               f'rng=None fallbacks of run_once, generate, fast_choice)')
+    ctx.need(n_sites >= 2, 'R11.3', root.site, f'only {n_sites} guarded global-generator sites found (expected the '
+                                               f'rng=None fallbacks of run_once and generate)')
     ctx.extra['reachable_from_run'] = len(reach)
     from .c06 import global_state_rule
     global_state_rule(ctx, 'R11.3', [ci.methods['_run']], 'trials are run')
@@ -394,7 +393,7 @@ def _r113(ctx: Ctx) -> None:
 def run(ctx: Ctx) -> None:
     ctx.rule('R11.1', 'run_once: generate -> measure -> decode -> add mod 2 -> classify; recorded keys bound to their roles', floor=4)
     ctx.rule('R11.2', 'per-trial accounting of _run and the estimator of get_results', floor=6)
-    ctx.rule('R11.3', 'no process-global generator reachable from _run when an rng is supplied', floor=5)
+    ctx.rule('R11.3', 'no process-global generator reachable from _run when an rng is supplied', floor=4)
     ctx.trust('success test itself and the logical-effect layout are decided in C04; the sampler in C07; decoder '
               'purity in C06')
     with ctx.part():
